@@ -28,7 +28,7 @@ pub struct Ill {
 }
 
 fn tree<T: Uni>(c: &Ill) -> T {
-    gen::run_merge_tree(c.xs.len(), &c.cuts, &c.merges, |a, b| c.xs[a..b].iter().collect::<T>(), |l: &mut T, r: &T| l.merge(r))
+    gen::run_merge_tree(c.xs.len(), &c.cuts, &c.merges, |a, b| super::common::build_uni::<T>(&c.xs[a..b], a + b + c.path as usize), |l: &mut T, r: &T| l.merge(r))
 }
 
 fn nonneg(o: &mut Obs, what: &str, v: f64) -> TestResult {
@@ -225,7 +225,11 @@ impl Check for BinVar {
             o.discarded = Some("empty histogram");
             return Ok(());
         }
-        // build the histogram through its public API: add + *= (binary expansion of the count)
+        // build the histogram through its public API: add, *=, merge and += (binary expansion of the
+        // count). The history is mixed on purpose: in every other bin the first sample is added directly
+        // to the accumulator, and the receiver of the combination rotates between merge, += and
+        // "merge the accumulator into the increment" — a bookkeeping field maintained by some of these
+        // operations but not by others shows up as a variance outside [0, total/4].
         let edges: Vec<f64> = (0..=10).map(|i| i as f64).collect();
         let mut acc = <crate::h10::Histogram as Hist>::from_ranges(&edges).unwrap();
         for (i, &cnt) in c.counts.iter().enumerate() {
@@ -233,12 +237,26 @@ impl Check for BinVar {
             let mut bit = <crate::h10::Histogram as Hist>::from_ranges(&edges).unwrap();
             let _ = Hist::add(&mut bit, i as f64 + 0.5);
             let mut k = cnt;
+            if k > 0 && i % 2 == 0 {
+                let _ = Hist::add(&mut acc, i as f64 + 0.25);
+                k -= 1;
+            }
+            let mut pos = 0usize;
             while k > 0 {
                 if k & 1 == 1 {
-                    Hist::merge(&mut acc, &bit);
+                    match (i + pos) % 3 {
+                        0 => Hist::merge(&mut acc, &bit),
+                        1 => Hist::add_assign(&mut acc, &bit),
+                        _ => {
+                            let mut t = bit.clone();
+                            Hist::merge(&mut t, &acc);
+                            acc = t;
+                        }
+                    }
                 }
                 Hist::mul_assign(&mut bit, 2);
                 k >>= 1;
+                pos += 1;
             }
         }
         if Hist::bins(&acc) != c.counts {
@@ -324,7 +342,7 @@ pub fn run(cx: &Ctx) {
             Counts { counts }
         })
     };
-    cx.run_pt(&BinVar, cx.by(2000, 400000), cx.workers, counts, "random counts in a 10-bin histogram built through add, *= and merge");
+    cx.run_pt(&BinVar, cx.by(2000, 400000), cx.workers, counts, "random counts in a 10-bin histogram built through a mixed history of add, *=, merge (both directions) and +=");
 }
 
 pub fn replay(check: &str, case: &serde_json::Value) -> Option<Result<(), String>> {
